@@ -352,7 +352,10 @@ def crafted() -> list[dict]:
                       F("Producer", "int64", default="-1", entityType="producerId"),
                       F("Replicas", "[]int32", entityType="brokerId"),
                       F("Observers", "[]int32", versions="1+", taggedVersions="1+", tag=3, entityType="brokerId"),
-                      F("Topics", "[]string", versions="2+", entityType="topicName")]}
+                      F("Topics", "[]string", versions="2+", entityType="topicName"),
+                      # int16 fields whose names merely *end* like the two special-cased error-code names
+                      F("TopicConfigErrorCode", "int16"), F("AcknowledgeErrorCode", "int16", default="0"),
+                      F("ErrorCodes", "[]int16"), F("ErrorCodeCount", "int16")]}
     out = [d1, d2, d3, d7, d8, d9, *d10, d11, d12, d13, d15]
     for key, stem in ((7, "Zc3Shutdown"), (18, "Zc4Versions")):
         for kind in ("request", "response"):
